@@ -126,6 +126,7 @@ harness_main(void)
     size_t cap = 0;
     setvbuf(stdout, NULL, _IOLBF, 0);
     harness_reset();
+    bool first_op = true;        /* of the process: nothing of the library has run yet */
     while (getline(&line, &cap, stdin) > 0) {
         char *argv[MAXTOK];
         int argc = 0;
@@ -141,8 +142,9 @@ harness_main(void)
 #ifdef HARNESS_NOISE
         /* between any two operations a second, unrelated object of the same kind is used (harness_noise): what the
          * library answers for the object under test must not depend on it - the library keeps no state of its own */
-        harness_noise();
+        if (!first_op) harness_noise();
 #endif
+        first_op = false;
         harness_op(argc, argv);
         putchar('\n');
     }
